@@ -80,6 +80,22 @@ func mainM(c *Ctx) *mainModel {
 			}
 		}
 	}
+	if m.serverT == "" {
+		// no struct holds a replay history (any more): the server object is the receiver of the configuration function, the
+		// one that creates the services
+		for _, f := range p.FnsIn(mainPkg) {
+			if p.IsTestSupport(f) {
+				continue
+			}
+			for _, cl := range eng.Calls(f) {
+				if eng.CalleeName(cl.Common()) == "service.NewShadowsocksService" {
+					if r := eng.Root(f); r.Signature.Recv() != nil {
+						m.serverT = eng.TypeName(r.Signature.Recv().Type())
+					}
+				}
+			}
+		}
+	}
 	m.listCtors = map[string]bool{}
 	for changed := true; changed; {
 		changed = false
